@@ -113,7 +113,7 @@ def parseLine (arg : String) : String :=
 
 def genLine (arg : String) : String :=
   let ts := words arg
-  match readJ (ts.length + 1) ts with
+  match readJ (2 * ts.length + 2) ts with
   | some (v, []) => "ok " ++ showCps (gen v)
   | _ => "bad-value"
 
